@@ -9,7 +9,7 @@ Quantifier: all index directories and all assigned sets, over repeated cleanups.
 
 Model: C32/Model.lean (cleanup.go's six phases over abstract directory states).  Lemmas: C32/Lemmas, C32/Phases.
 -/
-import ZoektModel.C32.Restore
+import ZoektModel.C32.Shape
 namespace ZoektModel.C32
 
 theorem cleanup_removes_tmps (d : Dir) (a : List Nat) (now : Int) (m : Bool) : (cleanup d a now m).tmps = 0 := by
@@ -381,6 +381,47 @@ theorem trash_purge_rule_partial (d : Dir) (A : List Nat) (now : Int) (m : Bool)
   have := hdisj g hg
   rw [← hoff.1, ← hoff.2, hb] at this; cases this
 
+/-! ### repeated cleanups -/
+
+/-- a history of cleanups: assigned list, clock and shard-merging setting of each run -/
+def cleanups (d : Dir) (runs : List (List Nat × Int × Bool)) : Dir :=
+  runs.foldl (fun d r => cleanup d r.1 r.2.1 r.2.2) d
+
+/-- **the shape of real directories is an invariant of cleanup**: distinct file names in both directories, at most one
+    repository alive per simple shard, no compound shard in the trash — after any number of cleanups with any assigned
+    lists, clocks and settings.  Hence the hypotheses of the per-cleanup theorems hold before every cleanup of a history. -/
+theorem shape_invariant (d : Dir) (h : Shape d) (runs : List (List Nat × Int × Bool)) : Shape (cleanups d runs) := by
+  unfold cleanups
+  induction runs generalizing d with
+  | nil => exact h
+  | cons r rest ih => simp only [List.foldl_cons]; exact ih _ (shape_cleanup h r.1 r.2.1 r.2.2)
+
+theorem shape_trash {d : Dir} (h : Shape d) : TrashSimple d ∧ TrashNamesUnique d :=
+  ⟨fun f hf a b ha hb => h.tsimple f hf (h.tnocomp f hf) a b ha hb, fun f hf g hg => h.tnames f hf g hg⟩
+
+/-- **unassigned_unsearchable over repeated cleanups**: after any history of cleanups of a directory of that shape, no
+    repository outside the assigned list of the *last* cleanup is searchable -/
+theorem unassigned_unsearchable_repeated (d : Dir) (h : Shape d) (runs : List (List Nat × Int × Bool))
+    (A : List Nat) (now : Int) (m : Bool) (id : Nat) (hid : A.contains id = false) :
+    searchable (cleanups d (runs ++ [(A, now, m)])).index id = false := by
+  have hs := shape_trash (shape_invariant d h runs)
+  have : cleanups d (runs ++ [(A, now, m)]) = cleanup (cleanups d runs) A now m := by
+    simp [cleanups, List.foldl_append]
+  rw [this]
+  exact unassigned_unsearchable _ A now m hs.1 hs.2 id hid
+
+/-- **assigned_kept over repeated cleanups** (partial, same exclusions as `assigned_kept_partial`) -/
+theorem assigned_kept_repeated_partial (d : Dir) (h : Shape d) (runs : List (List Nat × Int × Bool))
+    (A : List Nat) (now : Int) (m : Bool) (f : File) (hf : f ∈ (cleanups d runs).index)
+    (Hall : ∀ id, aliveIn f id = true → A.contains id = true ∧ consistent (cleanups d runs).index id = true)
+    (Hdisj : ∀ g ∈ (cleanups d runs).trash, sameBase g f.compound f.key = false) :
+    Kept f (cleanups d (runs ++ [(A, now, m)])).index := by
+  have hsh := shape_invariant d h runs
+  have : cleanups d (runs ++ [(A, now, m)]) = cleanup (cleanups d runs) A now m := by
+    simp [cleanups, List.foldl_append]
+  rw [this]
+  exact assigned_kept_partial _ A now m f hf (fun a ha b hb => hsh.inames a ha b hb) Hall Hdisj
+
 /-! ### the full statement is false on the model: a compound shard that still holds assigned repositories is deleted -/
 
 /-- DESIGN §8 / known finding C32-compound-shard-deleted-whole, shard merging off: compound {1,2,3}, assigned {1,2} -/
@@ -445,6 +486,24 @@ example : (⟨false, 60, 99990, [⟨6, 6, false, 0⟩]⟩ : File) ∈ exDir.tras
     (∀ g ∈ exDir.index, sameBase g false 60 = false) ∧
     keptIn (cleanup exDir [1, 3, 6, 7] 100000 true).index ⟨false, 60, 99990, [⟨6, 6, false, 0⟩]⟩ 6 = true := by
   decide
+
+example : Shape exDir := by
+  refine ⟨?_, ?_, ?_, ?_, ?_⟩
+  · intro f hf g hg h1 h2
+    simp only [exDir, List.mem_cons, List.mem_nil_iff, or_false] at hf hg
+    rcases hf with rfl | rfl | rfl | rfl <;> rcases hg with rfl | rfl | rfl | rfl <;> simp_all
+  · intro f hf g hg h1 h2
+    simp only [exDir, List.mem_cons, List.mem_nil_iff, or_false] at hf hg
+    rcases hf with rfl | rfl | rfl <;> rcases hg with rfl | rfl | rfl <;> simp_all
+  · intro f hf hc a b ha hb
+    simp only [exDir, List.mem_cons, List.mem_nil_iff, or_false] at hf
+    rcases hf with rfl | rfl | rfl | rfl <;> simp [aliveIn] at hc ha hb <;> omega
+  · intro f hf hc a b ha hb
+    simp only [exDir, List.mem_cons, List.mem_nil_iff, or_false] at hf
+    rcases hf with rfl | rfl | rfl <;> simp [aliveIn] at ha hb <;> omega
+  · intro f hf
+    simp only [exDir, List.mem_cons, List.mem_nil_iff, or_false] at hf
+    rcases hf with rfl | rfl | rfl <;> rfl
 
 example : (cleanup exDir [1, 3, 6, 7] 100000 true) =
     ⟨[⟨false, 60, 99990, [⟨6, 6, false, 0⟩]⟩, ⟨true, 1, 100000, [⟨1, 1, false, 1⟩, ⟨2, 2, true, 2⟩, ⟨3, 3, false, 3⟩]⟩],
